@@ -42,18 +42,16 @@ Proof.
 Qed.
 
 (* a delivery that doNextCall starts (arguments ready or not, method returning or raising, result accepted or not by the
-   callee's schema, answer serializable or not): exactly one `answer` or `error`, the table entry is gone, nothing is
-   swallowed, the connection is up -- provided the AnswerSlicer does not hit a non-Violation exception (the known finding)
-   and formatting the target / arguments for the local-failure log does not raise while that log is on *)
+   callee's schema, answer serializable or not, local-failure log on or off, target / arguments formattable or not): exactly
+   one `answer` or `error`, the table entry is gone, nothing is swallowed, the connection is up -- provided only that the
+   AnswerSlicer does not hit a non-Violation exception (the known finding) *)
 Theorem delivery_answered_once e s : cup s = true -> d_reqid e <> 0 -> d_answer e <> SCrash ->
-  (d_log_local e = false \/ d_repr_raises e = false) ->
   outcome_ok (d_reqid e) 1 (active s) s (handle (InDelivered e) s).
 Proof.
-  intros U R A L. apply Z.eqb_neq in R. destruct s as [a sn u sw]. cbn in U. subst u.
-  destruct e as [r sch rdy rs rok ans ll rr rn us ex]. cbn [d_reqid d_answer d_log_local d_repr_raises] in *.
+  intros U R A. apply Z.eqb_neq in R. destruct s as [a sn u sw]. cbn in U. subst u.
+  destruct e as [r sch rdy rs rok ans ll rr rn us ex]. cbn [d_reqid d_answer] in *.
   unfold handle, register, registers_reqid, delivery_chain, call_failed, callfailed_prog, call_finished, callfinished_prog.
-  destruct ans; [| |congruence]; destruct L as [-> | ->]; destruct rdy, rs, sch, rok; try destruct ll; try destruct rr;
-    crunch R; finish.
+  destruct ans; [| |congruence]; destruct rdy, rs, sch, rok, ll, rr; crunch R; finish.
 Qed.
 
 (* one-way calls (reqID 0) are never answered, whatever happens *)
@@ -66,18 +64,26 @@ Proof.
   - destruct rdy, rs, ll, rr; cbn; reflexivity.
 Qed.
 
-(* ---- what the hypotheses of delivery_answered_once exclude, on the faithful model *)
-(* (a) the local-failure log is on and the target (or an argument) cannot be formatted: callFailed raises in logFailure BEFORE
-   the error is sent; the chain's log.err swallows it: no message, the table entry stays, the caller waits for ever *)
-Theorem unrenderable_delivery_refuted : exists e s, cup s = true /\ d_reqid e <> 0 /\ d_answer e = SOk /\
+(* ---- the case that used to break the statement (repaired in foolscap: the log entry is guarded): the local-failure log is on
+   and the target (or an argument) cannot be formatted -- the error is sent all the same *)
+Theorem unrenderable_delivery_answered e s : cup s = true -> d_reqid e <> 0 -> d_answer e <> SCrash ->
+  d_log_local e = true -> d_repr_raises e = true -> d_raises e = true ->
   let s' := handle (InDelivered e) s in
-  sent s' = sent s /\ active s' = d_reqid e :: active s /\ swallowed s' = S (swallowed s) /\ cup s' = true.
+  (exists fs, sent s' = sent s ++ [MError (d_reqid e) fs]) /\ active s' = active s /\ swallowed s' = swallowed s /\ cup s' = true.
 Proof.
-  exists {| d_reqid := 7; d_schema := false; d_ready := true; d_raises := true; d_result_ok := true; d_answer := SOk;
-            d_log_local := true; d_repr_raises := true; d_render_raises := false; d_unsafe := false;
-            d_exc := {| e_type := [86]; e_str := Ok [109]; e_fallback := []; e_stack := []; e_parents := [] |} |}, cinit0.
-  split; [reflexivity|]. split; [discriminate|]. split; [reflexivity|]. vm_compute. auto.
+  intros U R A L RR RS. apply Z.eqb_neq in R. destruct s as [a sn u sw]. cbn in U. subst u.
+  destruct e as [r sch rdy rs rok ans ll rr rn us ex]. cbn [d_reqid d_answer d_log_local d_repr_raises d_raises] in *. subst.
+  unfold handle, register, registers_reqid, delivery_chain, call_failed, callfailed_prog, call_finished, callfinished_prog.
+  destruct rdy; crunch R; (split; [eexists; reflexivity|auto]).
 Qed.
+
+Example ex_unrenderable :
+  let e := {| d_reqid := 7; d_schema := false; d_ready := true; d_raises := true; d_result_ok := true; d_answer := SOk;
+              d_log_local := true; d_repr_raises := true; d_render_raises := false; d_unsafe := false;
+              d_exc := {| e_type := [86]; e_str := Ok [109]; e_fallback := []; e_stack := []; e_parents := [] |} |} in
+  List.length (sent (handle (InDelivered e) cinit0)) = 1%nat /\ active (handle (InDelivered e) cinit0) = [] /\
+  swallowed (handle (InDelivered e) cinit0) = 0%nat.
+Proof. vm_compute. auto. Qed.
 
 (* (b) a non-Violation exception while the answer is serialized drops the connection *)
 Theorem answer_crash_drops_connection e s : cup s = true -> d_ready e = true -> d_raises e = false ->
@@ -97,7 +103,7 @@ Definition inbound_ok (i : inbound) : Prop :=
   reqid_of i <> 0 /\
   match i with
   | InRejected _ _ => True
-  | InDelivered e => d_answer e <> SCrash /\ (d_log_local e = false \/ d_repr_raises e = false)
+  | InDelivered e => d_answer e <> SCrash
   end.
 
 Lemma replies_app r a b : replies r (a ++ b) = (replies r a + replies r b)%nat.
@@ -115,10 +121,10 @@ Proof.
                         (forall x, In x a -> x = reqid_of i \/ In x (active s))).
   { destruct i as [abort e|e]; unfold reqid_of in *; cbn [in_env] in *.
     - eexists. split; [apply (rejected_answered_once abort e s U R)|]. destruct abort; cbn; intuition.
-    - destruct K as [K1 K2]. exists (active s). split; [|auto].
+    - exists (active s). split; [|auto].
       assert (E : expected_replies (InDelivered e) = 1%nat).
       { unfold expected_replies. apply Z.eqb_neq in R. rewrite R. reflexivity. }
-      rewrite E. apply (delivery_answered_once e s U R K1 K2). }
+      rewrite E. apply (delivery_answered_once e s U R K). }
   destruct O as (a & (C & W & A & M) & Sub). split; [exact C|]. split; [exact W|]. split; [rewrite A; exact Sub|].
   destruct M as [[M E]|(m & M & Q & E)]; rewrite M, E.
   - split; [lia|auto].
@@ -168,7 +174,7 @@ Proof.
         {| d_reqid := r; d_schema := sch; d_ready := rdy; d_raises := rs; d_result_ok := rok; d_answer := ans; d_log_local := true;
            d_repr_raises := false; d_render_raises := true; d_unsafe := true;
            d_exc := {| e_type := [86]; e_str := Ok [109]; e_fallback := []; e_stack := []; e_parents := [] |} |}))
-      by (intros; split; [exact H0|split; [exact H|right; reflexivity]]).
+      by (intros; split; [exact H0|exact H]).
     repeat (apply Forall_cons || apply Forall_nil); try (apply D; discriminate); (split; [cbn; discriminate|exact I]). }
   split; [repeat constructor; cbn; intuition discriminate|]. split; vm_compute; reflexivity.
 Qed.
